@@ -113,6 +113,7 @@ package litonlylzma
 //@ func (*rangeEncoder).shiftLow
 //@   prop C17
 //@   requires rEnc.low < 8589934592
+//@   ensures[shift] rEnc.low == (old(rEnc.low) * 256) % 4294967296 && implies(old(rEnc.low) < 4278190080 || old(rEnc.low) >= 4294967296, rEnc.pendingExtra == 0)
 //@   ensures rEnc.low < 4294967296 && unchanged(rEnc.width) && len(rEnc.dst) >= old(len(rEnc.dst)) && (base(rEnc.dst) == old(base(rEnc.dst)) || fresh(base(rEnc.dst)))
 //@   modifies rEnc.dst, rEnc.low, rEnc.pendingHead, rEnc.pendingExtra, mem(rEnc.dst)
 //@   wraps add
@@ -154,6 +155,8 @@ package litonlylzma
 //@   loop 2 invariant -1 <= rangeindex_2 && rangeindex_2 <= len(src) && encOK(rEnc) && forall(k, 0, 4, probOK(posProbs[k])) && forall(a, 0, 8, forall(k, 0, 256, probOK(litProbs[a][k])))
 //@   loop 2 invariant len(rEnc.dst) >= len(dst) && (base(rEnc.dst) == base(dst) || fresh(base(rEnc.dst)))
 //@   loop 2 decreases len(src) - rangeindex_2
+//@   assert@ret [flushed] rEnc.low == 0 && rEnc.pendingExtra == 0
+//@   loop 3 invariant implies(i == 1, rEnc.low % 256 == 0) && implies(i == 2, rEnc.low % 65536 == 0) && implies(i == 3, rEnc.low % 16777216 == 0) && implies(i >= 4, rEnc.low == 0) && implies(i == 5, rEnc.pendingExtra == 0) && implies(i >= 1, rEnc.low < 4294967296)
 //@   loop 3 invariant 0 <= i && i <= 5 && rEnc.low < 8589934592 && len(rEnc.dst) >= len(dst) && (base(rEnc.dst) == base(dst) || fresh(base(rEnc.dst)))
 //@   loop 3 decreases 5 - i
 
